@@ -188,3 +188,36 @@ Fixpoint path_hash_go (cur : bytes) (bits : N) (s : bytes) : bytes :=
   end.
 
 Definition path_hash (p : bytes) : bytes := path_hash_go [] 0 p.
+
+(* ---------- str::from_utf8 (read_to_string fails on anything else) ---------- *)
+
+Definition in_range (lo hi b : N) : bool := (lo <=? b) && (b <=? hi).
+Definition is_cont (b : N) : bool := in_range 128 191 b.
+
+Fixpoint utf8_valid (s : bytes) : bool :=
+  match s with
+  | [] => true
+  | b0 :: r =>
+      if b0 <? 128 then utf8_valid r
+      else if in_range 194 223 b0 then
+        match r with b1 :: r1 => is_cont b1 && utf8_valid r1 | _ => false end
+      else if in_range 224 239 b0 then
+        match r with
+        | b1 :: b2 :: r2 =>
+            (if b0 =? 224 then in_range 160 191 b1
+             else if b0 =? 237 then in_range 128 159 b1
+             else is_cont b1)
+            && is_cont b2 && utf8_valid r2
+        | _ => false
+        end
+      else if in_range 240 244 b0 then
+        match r with
+        | b1 :: b2 :: b3 :: r3 =>
+            (if b0 =? 240 then in_range 144 191 b1
+             else if b0 =? 244 then in_range 128 143 b1
+             else is_cont b1)
+            && is_cont b2 && is_cont b3 && utf8_valid r3
+        | _ => false
+        end
+      else false
+  end.
